@@ -80,6 +80,9 @@ pub enum Ev {
     /// Collector crash + restart: every parser instance is replaced by a fresh one (nothing
     /// in this library is durable).
     Restart { t: u64 },
+    /// The operator changes parser `p`'s `allowed_versions` (a public field) at run time; the
+    /// caches keep what was learned under the previous setting.
+    Reconfigure { t: u64, p: usize, allowed: Vec<u16> },
 }
 
 impl Ev {
